@@ -288,6 +288,7 @@ VARIANTS = [
     V("seed-C10-m3-static-oncelock", [("@patch", "seeded/C10-m3/patch.diff")], {"C10": "GLOBALSTATE:"}),
     V("seed-C13-m3-tail-takes-first", [("@patch", "seeded/C13-m3/patch.diff")], {"C13": "ENDS:check::expr_get_tail:Sequence"}),
     V("skips-rename-locals-benign", [("src/check.rs", "let mut visited: UstrSet = Default::default();\n    let mut result: Vec<Ustr> = Default::default();", "let mut seen_vertices: UstrSet = Default::default();\n    let mut result: Vec<Ustr> = Default::default();"), ("src/check.rs", "&mut visited,\n            &mut result,\n        )?;\n        path.clear();\n        result.push(vertex);", "&mut seen_vertices,\n            &mut result,\n        )?;\n        path.clear();\n        result.push(vertex);"), ("src/check.rs", "debug_assert!(!visited.contains(&vertex));", "debug_assert!(!seen_vertices.contains(&vertex));"), ("src/check.rs", "        if visited.contains(vertex) {\n            continue;\n        }\n        path.push((\n            *vertex,", "        if seen_vertices.contains(vertex) {\n            continue;\n        }\n        path.push((\n            *vertex,"), ("src/check.rs", "&mut visited,\n            &mut result,\n        )?;\n        path.clear();\n        result.push(*vertex);", "&mut seen_vertices,\n            &mut result,\n        )?;\n        path.clear();\n        result.push(*vertex);")], {"C08": None, "C06": None}),
+    V("seed-C02-m3-level-written-in-place", [("@patch", "seeded/C02-m3/patch.diff")], {"C02": "ARENA-IMMUT:check::do_propagate_fallback_levels"}),
     # ---------------- C10
     V("c10-std-hashset-in-dfa", [("src/dfa.rs", "use hashbrown::{HashMap, HashSet};", "use hashbrown::HashMap;\nuse std::collections::HashSet;")], {"C10": "HASHORD:dfa::dfa_from_regex"}),
     V("c10-env-var", [("src/lib.rs", '    let version = env!("COMPLGEN_VERSION");', '    let version = std::env::var("COMPLGEN_VERSION").unwrap_or_default();')], {"C10": "AMBIENT:signature"}),
